@@ -305,12 +305,28 @@ def code_flags(repo, unparsed):
     f = method_of(tree, 'Expr', '__pow__')
     flags['powSetsUnits'] = bool(f) and assigns_units(f)
     rec = []
+    keep = []
     for fn, cn in (('impedancemixin.py', 'ImpedanceMixin'), ('admittancemixin.py', 'AdmittanceMixin')):
         f = method_of(ast.parse(open(os.path.join(lc, fn)).read()), cn, '__rtruediv__')
         rec.append(bool(f) and assigns_units(f))
-    if rec[0] != rec[1]:
-        unparsed.append({'item': 'flags.recipSetsUnits', 'why': 'the two immittance mixins differ'})
+        # is the reciprocal built with self._class_by_quantity(<quantity>)(value, **self.assumptions) (keeps the domain
+        # of the operand) or with the factory admittance(value) / impedance(value) (class chosen from the expression)?
+        k = None
+        if f:
+            for sub in ast.walk(f):
+                if isinstance(sub, ast.Assign) and getattr(sub.targets[0], 'id', None) == 'ret' and isinstance(sub.value, ast.Call):
+                    fn_ = sub.value.func
+                    if isinstance(fn_, ast.Call) and ast.unparse(fn_.func) == 'self._class_by_quantity' and len(fn_.args) == 1:
+                        k = True
+                    elif isinstance(fn_, ast.Name) and fn_.id in ('admittance', 'impedance'):
+                        k = False
+        keep.append(k)
+    if rec[0] != rec[1] or keep[0] != keep[1]:
+        unparsed.append({'item': 'flags.recipSetsUnits/recipKeepsDomain', 'why': 'the two immittance mixins differ'})
+    if keep[0] is None:
+        unparsed.append({'item': 'flags.recipKeepsDomain', 'why': 'shape of `ret = ...` in __rtruediv__ not understood'})
     flags['recipSetsUnits'] = all(rec)
+    flags['recipKeepsDomain'] = bool(keep[0]) and bool(keep[1])
     # the omega-domain special cases of __compat_add__: top level, or guarded by a test on the quantities
     f = method_of(tree, 'Expr', '__compat_add__')
     guarded = None
@@ -580,7 +596,8 @@ def generate(repo='/repo'):
     w('def codeFlags : Flags :=')
     w('  { divRestoresUnits := %s, powSetsUnits := %s, recipSetsUnits := %s, omegaNeedsQuantity := %s,' % tuple(
         lean_b(flags[k]) for k in ('divRestoresUnits', 'powSetsUnits', 'recipSetsUnits', 'omegaNeedsQuantity')))
-    w('    canonFoldsHertz := %s, canonicalOnlyPrinting := %s }' % (lean_b(flags['canonFoldsHertz']), lean_b(flags['canonicalOnlyPrinting'])))
+    w('    canonFoldsHertz := %s, canonicalOnlyPrinting := %s, recipKeepsDomain := %s }' % (
+        lean_b(flags['canonFoldsHertz']), lean_b(flags['canonicalOnlyPrinting']), lean_b(flags['recipKeepsDomain'])))
     w('')
     w('def tables : Tables :=')
     w('  { mul := mulTable, div := divTable, classes := classTable, domains := domainTable,')
